@@ -21,18 +21,28 @@ def shipped_laminar(ctx, n):
     from common import node_val
     from multidecoder.multidecoder import Multidecoder
     from scan_common import ScanTimeout, with_timeout
+    from scan_common import RecordingRegistry
     md = Multidecoder()
+    reg = RecordingRegistry()
+    md_rec = Multidecoder(decoders=reg.decoders)      # only to learn which nodes carry decoder-supplied sub-structure
     for data in corpus_gen.gen_inputs(ctx.rng, n) + [corpus_gen.plain_nested(ctx.rng) for _ in range(n // 10)]:
         try:
             tree = node_val(with_timeout(lambda: md.scan(data), 20))
+            del reg.calls[:]
+            with_timeout(lambda: md_rec.scan(data), 20)
         except (ScanTimeout, Exception):  # noqa: BLE001  (C01)
             continue
         ctx.evals += 1
+        supplied = {(h[0], h[1], h[2]) for _n, _v, hits in reg.calls for h in hits if h[5]}
         bad = []
 
         def walk(t):
+            # children ATTACHED BY THE SCAN: starts non-decreasing, ends strictly increasing.  Sub-structure a decoder built for its own result (URL parts, the host and
+            # file-name parts of a Windows path, which may coincide: \\.\UNC\evil.com) is not attached by the scan: there only the ORDER is required (neither starts nor ends decrease)
+            own = t[5] and (t[0], t[1], t[2]) in supplied
             for x, y in zip(t[5], t[5][1:]):
-                if not (x[3] <= y[3] and x[4] < y[4]) and not bad:
+                ok = (x[3] <= y[3] and x[4] <= y[4]) if own else (x[3] <= y[3] and x[4] < y[4])
+                if not ok and not bad:
                     bad.append(f"children of {t[0]!r} {t[1][:50]!r}: ({x[0]!r},{x[3]},{x[4]}) then ({y[0]!r},{y[3]},{y[4]}) - starts must not decrease, ends must strictly increase")
             for c in t[5]:
                 walk(c)
